@@ -18,6 +18,7 @@ import spec
 from spec import bits_of, hex_of
 
 OBLIGATION_MODULES = ["PyModeS.Properties.C15"]
+TIE_MODULES = ["PyModeS.Tie.CBasic", "PyModeS.Tie.CCrc", "PyModeS.Tie.CAlt"]
 MAIN_THEOREM = "PyModeS.C15.c_*_eq (per shared function)"
 RULE = ("every shared function: exhaustive 13-bit codes (altitude, squawk), DF 0..31 x TC 0..31, dense floats for cprNL/floor, random frames "
         "in both letter cases for hex2bin/bin2int/hex2int/crc/icao/typecode/idcode/altcode/data/allzeros, wrongstatus; decoders re-run with the "
